@@ -35,7 +35,10 @@ Definition show_result (r : result) : Z * Z * list Z := let '(txh, h, x) := r in
 Definition count_some {A} (l : list (Z * option A)) : Z :=
   Z.of_nat (length (filter (fun e => match snd e with Some _ => true | None => false end) l)).
 
+(** a panic in a begin/end blocker halts the chain: both sides aborting is agreement, whatever
+    the half-executed blocker left in the store *)
 Definition corr_step (out : outcome) (s' : state) (st : step) (o : obs) : bool :=
+  (match out with Abort => o_code o =? 2 | _ => false end) ||
   (match st with
    | Calls cs => if o_code o =? 1 then (match cs with [] => true | _ => false end)
                  else o_code o =? outcome_code out
